@@ -10,5 +10,5 @@ CONSTANTS
   Junk = 34
   EmitOn = TRUE
 CONSTRAINT HeadOK
-INVARIANTS ResumeEqFresh IdempotentC StableC OffsSaneC CovProbe Emit EmitTwo EmitByte DeclCore DeclKind DeclExtra
+INVARIANTS ResumeEqFreshC Idempotent StableC OffsSaneC CovProbe Emit EmitTwo EmitByte DeclCore DeclKind DeclExtra
 CHECK_DEADLOCK FALSE
